@@ -126,6 +126,14 @@ def subquery_corpus():
                 f"select x1.a from t1 as x1 join t2 as x2 on x1.a = x2.a order by x2.b{tail}",
                 f"select x1.a + 1 from t1 as x1 order by x1.a * 2, x1.b{tail}",
                 f"select distinct x1.a from t1 as x1 order by x1.a{tail}"]
+    # an ordered derived table whose sort keys nothing else uses, below a join and an aggregation
+    for ordk in ("d1", "d1, d2", "d2"):
+        inner1 = f"select x2.b as d1, (x2.a * 2) as d2, (x2.a + x2.a) as d3 from t2 as x2 order by {ordk}"
+        inner3 = "select x4.b as d1, count(x4.a) as d2, min(x4.a) as d3 from t3 as x4 group by x4.b"
+        out.append(f"select max(x3.d1) as c1, x3.d1 as c2, x1.d3 as c3 from ({inner1}) as x1 cross join ({inner3}) as x3 "
+                   f"where (- x1.d3) > x1.d3 group by x3.d1, x1.d3")
+        out.append(f"select x1.d3 as c1, count(*) as c2 from ({inner1}) as x1 join t3 as x3 on x1.d3 = x3.a group by x1.d3")
+        out.append(f"select x1.d3 as c1 from ({inner1}) as x1 cross join t3 as x3 where x1.d3 > 0")
     # derived tables (subqueries in FROM): plain, computed, simplifiable, aggregated, joined, filtered
     for inner in ("select a, b from t1", "select a + 1 as s, b from t1", "select a + 0 as s, b from t1",
                   "select a * 1 as s, b from t1", "select a * b as s, b from t1", "select - (- a) as s, b from t1",
@@ -228,7 +236,8 @@ def check_c17(args):
         if qinfo.get("source") == "subquery-family":
             key = f"{where}|{qinfo['sql']}"
             stats.setdefault("subq_failures", set()).add(key)
-            fid = ("F33" if " from (select distinct" in qinfo["sql"] else "F32") if " from (select" in qinfo["sql"] else \
+            fid = ("F33" if " from (select distinct" in qinfo["sql"] else
+                   ("F34" if re.search(r"order by d\d(, d\d)?\) as", qinfo["sql"]) else "F32")) if " from (select" in qinfo["sql"] else \
                 ("Q8" if "(select" in qinfo["sql"] else "Q2")
             if key in known_subq and v.is_known(fid):
                 v.note_known(fid)
